@@ -13,14 +13,15 @@
 package main
 
 import (
-	"encoding/binary"
 	"bufio"
 	"bytes"
+	"encoding/binary"
 	"flag"
 	"fmt"
 	"io"
 	"os"
 	"strings"
+	"verifharness/c01/bx"
 
 	"github.com/Eyevinn/mp4ff/bits"
 	"github.com/Eyevinn/mp4ff/mp4"
@@ -89,10 +90,10 @@ func main() {
 // ---------------------------------------------------------------- the property oracle
 type decoded struct {
 	ok    bool
-	p     string // panic description
-	dump  string // Info(all:1) text
-	group string // grouping + StartPos (file level) / type:size (box level)
-	repro bool   // re-encoding (box tree mode) reproduces the input exactly
+	p     string      // panic description
+	dump  string      // Info(all:1) text
+	group string      // grouping + StartPos (file level) / type:size (box level)
+	repro bool        // re-encoding (box tree mode) reproduces the input exactly
 	val   interface{} // the decoded structure itself (structural comparison of the two decodings)
 }
 
@@ -145,7 +146,7 @@ func encodersAgree(mk func() interface{}, n int, modes []mp4.EncFragFileMode) []
 		if f, ok := y.(*mp4.File); ok {
 			f.FragEncMode = mode
 		}
-		sw := bits.NewFixedSliceWriter(2*n + 4096)
+		sw := bx.DirtyWriter(2*n + 4096)
 		ps := guard(func() { serr = y.(enc).EncodeSW(sw) })
 		switch {
 		case pw != "" || ps != "":
@@ -271,7 +272,7 @@ func encBoth(b mp4.Box) string {
 	if guard(func() { werr = b.Encode(&wb) }) == "" && werr == nil {
 		w = hx.Hex(wb.Bytes())
 	}
-	sw := bits.NewFixedSliceWriter(int(b.Size()) + 64)
+	sw := bx.DirtyWriter(int(b.Size()) + 64)
 	if guard(func() { serr = b.EncodeSW(sw) }) == "" && serr == nil {
 		s = hx.Hex(sw.Bytes())
 	}
@@ -342,7 +343,7 @@ func structLine(data []byte, cfg string, mode mp4.EncFragFileMode) string {
 	if err := f.Encode(&wb); err == nil {
 		w = hx.Hex(wb.Bytes())
 	}
-	sw := bits.NewFixedSliceWriter(2*len(data) + 4096)
+	sw := bx.DirtyWriter(2*len(data) + 4096)
 	if err := f.EncodeSW(sw); err == nil {
 		s = hx.Hex(sw.Bytes())
 	}
